@@ -83,6 +83,10 @@ def run(ctx):
                 ctx.ob("C08.bitmap-arith", okb and oks, "NULL test reads byte [%r], mask %s (need byte col/8, bit 1 << col%%8; parameter bitmaps have offset 0)" % (byte_ix, term_str(b)[:60]),
                        fn=nxt.path, construct="null-bit", where=nxt.where(bb), sample={"rule": "bitmap-arith", "byte": repr(byte_ix), "mask": term_str(b)[:60]})
     ctx.floor("C08.bitmap-arith", "NULL bitmap tests", nb, 1)
+    # flag byte, type table (entry i = byte 1+2i / bit 7 of byte 2+2i after the flag), value-cursor start, per-statement table,
+    # rebind discipline: C16's cursor rules are part of this property's layout claim too
+    import rules.C16 as C16
+    C16.run(ctx)
 
     # ---- value layouts -----------------------------------------------------------------------------
     ct = [a for k_, a in prog.adts.items() if k_.endswith("constants::ColumnType")][0]
